@@ -10,7 +10,7 @@ use crate::cancel::Cancel;
 use crate::coroutine_impl::co_get_handle;
 use crate::coroutine_impl::{CoroutineImpl, EventSource};
 use crate::io as io_impl;
-use crate::yield_now::yield_with_io;
+use crate::yield_now::{get_co_para, yield_with_io};
 
 pub struct RawIoBlock<'a> {
     io_data: &'a io_impl::IoData,
@@ -50,6 +50,9 @@ impl EventSource for RawIoBlock<'_> {
     fn yield_back(&self, _cancel: &'static Cancel) {
         #[cfg(feature = "io_cancel")]
         _cancel.clear_cancel_bit();
+        // the cancel is swallowed here, so must be its `Canceled` result: nothing else consumes
+        // it, and a later park on this stack would return it
+        get_co_para();
     }
 }
 
